@@ -19,7 +19,7 @@ RULE = ('seeded connect() histories: 0..4 keys drawn from four fixture key pairs
         'SHA-1 digest, pure-integer check against the fixture public numbers) and the host packet log is compared with a reference handshake model. '
         'non-trivial = >= 2 keys offered and >= 1 signature rejected; distinct = event-log digests')
 ASSUMPTIONS = ['fixture keys were generated with `cryptography`, independently of adb_shell.auth.keygen', 'auth_timeout_s=None with a silent device is excluded (documented wait-forever)']
-EXPECT_PROBES = {'all': ['c05_pubkey_offered', 'c05_key_accepted', 'c05_bad_challenge', 'c05_no_keys', 'c05_reconnect', 'c05_callback', 'c05_silent_pubkey', 'auth_rechallenge_after_pubkey', 'auth_silent_after_signature', 'c05_auth_timeout_none', 'c05_banner_not_utf8', 'stray_before_answer',
+EXPECT_PROBES = {'all': ['c05_pubkey_offered', 'c05_key_accepted', 'c05_bad_challenge', 'c05_no_keys', 'c05_reconnect', 'c05_callback', 'c05_silent_pubkey', 'auth_rechallenge_after_pubkey', 'auth_silent_after_signature', 'c05_auth_timeout_none', 'c05_banner_not_utf8', 'c05_maxdata_above_1mib', 'stray_before_answer',
                          'c05_signer_pycryptodome', 'c05_signer_cryptography', 'c05_signer_pythonrsa']}
 OWN = ('first-packet', 'signature-invalid', 'signature-order', 'signature-count', 'packet-after-cnxn', 'pubkey-early', 'pubkey-wrong', 'pubkey-missing', 'callback-count',
        'wrong-result', 'wrong-exception', 'missing-exception', 'unexpected-exception', 'timeout-instead-of-result', 'available-wrong', 'maxdata-wrong', 'auth-wait-short',
@@ -81,6 +81,10 @@ def generate(seed, tier):
     ops.append({'op': 'maxchunk'})
     ops.append({'op': 'push', 'src': 'bytesio', 'content': {'seed': 5, 'size': g.pick([100, 9000, 70000]), 'alpha': 'bin'}, 'path': '/data/local/tmp/after', 'mtime': 3})
     d['auth'] = auths
+    if g.chance(0.04):
+        # a device that takes more per message than the host's own 1 MiB: that is the device's limit, and it is adopted as announced
+        d['maxdata'] = g.pick([2097152, 3145728])
+        ops[-1]['content'] = {'seed': 5, 'size': d['maxdata'] + g.pick([100000, 300000]), 'alpha': 'zero'}
     if g.chance(0.15):
         d['banner_hex'] = g.pick([b'device::ro.product.model=Caf\xe9 Phone;ro.product.name=x', b'device::\xff\xfe\x00\x80binary', b'device::ro.product.model=\xc4\xe3\xba\xc3;features=cmd\x00\xc3']).hex()
     cfg = {'frag': g.pick(['whole', 'mixed', 'boundary']), 'call_cost': 1e-5, 'idle_cost': 0.05}
@@ -258,6 +262,12 @@ def evaluate(case, tapes=None):
                     if 'exceeds device maxdata' in m:
                         probs.append(O.P('wrte-over-maxdata', m))
                         break
+                if rec['ok'] and maxdata > 1048576 and rec['spec']['content']['size'] >= maxdata + 100000:
+                    # the adopted maxdata is what bounds a sync WRITE: a file larger than it fills (at least) one WRITE nearly up to it
+                    big = max([p[4] for p in dev.host_pkts if p[1] == 'WRTE'] or [0])
+                    pr['c05_maxdata_above_1mib'] = 1
+                    if big < maxdata - 70000:
+                        probs.append(O.P('maxdata-wrong', 'device announced maxdata %d; the largest WRITE of a %d-byte push carried %d bytes' % (maxdata, rec['spec']['content']['size'], big)))
             elif rec['ok'] or rec['exc'] != 'AdbConnectionError':
                 probs.append(O.P('wrong-exception', 'push after a failed connect: %s' % ('returned' if rec['ok'] else rec['exc'])))
     out['violations'] = [p for p in probs if p[0] in OWN]
